@@ -250,7 +250,14 @@ def rule_g(chk: Check) -> None:
                 mr = kwarg(fc, "max_redirects")
                 if mr is None and "max_redirects" in params_ and len(fc.args) > params_.index("max_redirects"):
                     mr = fc.args[params_.index("max_redirects")]
-                okf = mr is not None and dotted(mr) == "self.max_redirects"
+                if isinstance(mr, ast.Name):
+                    # through a local (`limit = self.max_redirects`)
+                    from ..flow import Defs as _Defs, origins as _origins
+
+                    lv = _origins(_Defs(g2), rets[0], mr)
+                    okf = bool(lv) and all(dotted(le) == "self.max_redirects" for _n, le in lv)
+                else:
+                    okf = mr is not None and dotted(mr) == "self.max_redirects"
         ok4 = ok4 and okf
     if not ok4:
         chk.finding("G4", gt.key, "get-dispatch", "get() does not return exactly one unmodified _get_single result when redirects are disabled, or does not hand self.max_redirects to the follower", gt.loc())
